@@ -322,6 +322,8 @@ def merge_oracle(op, before, after):
         p = (pol or {}).get(sc.UNSYM[kk])
         if p is None or p == 'discard':
             exp[kk] = val
+        elif p in ('overwrite', 'combine') and kk not in other:
+            return 'merge succeeded although the policy needs property %s of the other node, which it lacks' % sc.UNSYM[kk]
         elif p == 'overwrite':
             exp[kk] = other[kk]
         elif p == 'combine':
@@ -348,7 +350,7 @@ class Lock(Stream):
     W = {'import': 4, 'import_direct': 1, 'clone': 2, 'merge': 2, 'del_graph': 2}
 
     def gen(self, rng, tier):
-        n = 400 if tier == 'quick' else 6000
+        n = 400 if tier == 'quick' else 4000
         out = []
         for i in range(n):
             r = rng.random()
@@ -445,7 +447,7 @@ class Lock(Stream):
 
 class Exhaustive(Lock):
     name = 'exhaustive'
-    rule = ('ALL histories of depth <= D (quick D=2 over 24 operations, thorough D=3 over 24 and D=4 over 10) on 2 graph ids x 2 node '
+    rule = ('ALL histories of depth <= D (quick D=2 over 24 operations, thorough D=3 over 24 and D=4 over 8) on 2 graph ids x 2 node '
             'ids x 2 classes x 1 relation x 1 property name; non-trivial = >=2 state-changing steps; distinct by history')
 
     ALPHA = [
@@ -469,7 +471,7 @@ class Exhaustive(Lock):
         else:
             for k in (1, 2, 3):
                 out += [[list(x) for x in t] for t in itertools.product(self.ALPHA, repeat=k)]
-            core = [self.ALPHA[i] for i in (0, 1, 2, 3, 4, 5, 6, 7, 13, 20)]
+            core = [self.ALPHA[i] for i in (0, 1, 2, 3, 4, 5, 7, 13)]
             out += [[list(x) for x in t] for t in itertools.product(core, repeat=4)]
         return out
 
